@@ -359,6 +359,41 @@ def gen_deck(rng, force=None):
     return deck, meta
 
 
+def render_text(deck, rng, shorthand=None):
+    '''Text of the deck.  With `shorthand` (default: 35 % of the decks) the FILL
+    arrays of the lattice cells are written with MCNP's repeat shorthand
+    (`2 3r` = 2 2 2 2, `r` = once more) wherever a universe repeats; the
+    keywords that deck.cell_options writes after FILL (TRCL, IMP) then follow a
+    shorthand array.  The abstract deck (numeric array) stays the reference.'''
+    import copy
+    if shorthand is None:
+        shorthand = rng.random() < 0.35
+    if not shorthand:
+        return deckmod.render(deck), False
+    out = copy.deepcopy(deck)
+    used = False
+    for cell in out['cells']:
+        fill = cell.get('fill')
+        if not cell.get('lat') or not fill or fill.get('homogeneous') \
+                or 'array' not in fill:
+            continue
+        arr, toks, k = fill['array'], [], 0
+        while k < len(arr):
+            n = 1
+            while k + n < len(arr) and arr[k + n] == arr[k]:
+                n += 1
+            toks.append(str(arr[k]))
+            if n >= 2 and rng.random() < 0.8:
+                toks.append('r' if n == 2 and rng.random() < 0.5
+                            else f'{n - 1}r')
+                used = True
+            else:
+                toks.extend(str(arr[k]) for _ in range(n - 1))
+            k += n
+        fill['array'] = toks
+    return deckmod.render(out), used
+
+
 # ---------------------------------------------------------------------------
 # malformed / out-of-scope lattice cells (tie only)
 # ---------------------------------------------------------------------------
